@@ -3,7 +3,7 @@
 # (suite passes with it, demo fails with it and passes without), store it under seeded/,
 # and run the named checks (default: the property's own) against the changed tree.
 pid=$1; i=$2; shift 2
-wt=/tmp/seed-$pid; sd=$wt/_seed; dst=/verif/seeded/$pid-$i
+pre=${SEED_PREFIX:-seed}; wt=/tmp/$pre-$pid; sd=$wt/_seed; dst=/verif/seeded/$pid-$i; [ "$pre" = seed2 ] && dst=/verif/seeded/$pid-w2-$i
 checks=${@:-$pid}
 [ -f $sd/patch$i.diff ] || { echo "no patch $sd/patch$i.diff"; exit 2; }
 mkdir -p $dst; cp $sd/patch$i.diff $dst/patch.diff; cp $sd/demo$i.py $dst/demo.py; cp $sd/notes$i.md $dst/notes.md 2>/dev/null
@@ -24,7 +24,7 @@ pid,i,base,rw,ro,dst,checks=sys.argv[1:8]
 notes=open(os.path.join(dst,'notes.md')).read() if os.path.exists(os.path.join(dst,'notes.md')) else ''
 meta=dict(property=pid, seed_index=int(i), breaks=pid, needs_to_manifest=notes[:1500],
   confirmed=dict(baseline=base, demo_rc_with_change=int(rw), demo_rc_without_change=int(ro)),
-  ran=f"tools/seed_eval.sh {pid} {i} {checks} (scratch worktree /tmp/seed-{pid}, checks run with NASIM_REPO pointing at the changed worktree)",
+  ran=f"tools/seed_eval.sh {pid} {i} {checks} (scratch worktree under /tmp, checks run with NASIM_REPO pointing at the changed worktree)",
   replays=sorted(os.path.basename(f) for f in glob.glob(os.path.join(dst,'replays','*.json'))))
 json.dump(meta, open(os.path.join(dst,'meta.json'),'w'), indent=1)
 PY
